@@ -1692,6 +1692,180 @@ fn gen_ord_case(rng: &mut Rng) -> Case {
     Case { line: format!("ord {} {}", d, r), tags }
 }
 
+// ------------------------------------------------------------------------------------------------ join operator cases
+
+/// `jop <DB> | sel all j <kind> t0 t1 (on E | -) - g0 a0 star o0 lim- off-`: the join of the two tables of the database
+/// is handed to the implementation rules through the facade (`verif::plan::run_join_operators`) and **every** physical
+/// join operator they offer is run directly on the two inputs — the cost model has no say.  Answer: one
+/// `<Operator>=<result>` per offered operator (NestedLoopJoin always; HashJoin and MergeJoin for a pure conjunction of
+/// `column = column` over both sides), result = `Rset:` rows in canonical order or `E<class>`.
+fn run_jop_case(line: &str) -> String {
+    let Some(rest) = line.strip_prefix("jop ") else { return "bad-op".into() };
+    let Some((dbw, stmt)) = rest.split_once(" | ") else { return "bad-op".into() };
+    let Some((db, stmts)) = parse_case(&format!("sql {} ; {}", dbw.trim(), stmt)) else { return "bad-op".into() };
+    let [Stmt::Select(q)] = stmts.as_slice() else { return "bad-op".into() };
+    let From::Join(kind, l, r, on) = &q.from else { return "bad-op".into() };
+    if db.len() != 2 || !matches!(**l, From::Table(0)) || !matches!(**r, From::Table(1)) {
+        return "bad-op".into();
+    }
+    let plain = q.where_.is_none() && q.aggs.is_empty() && q.group_by.is_empty() && q.items.is_none() && q.order_by.is_empty()
+        && q.limit.is_none() && q.offset.is_none() && !q.distinct && q.having.is_none();
+    if !plain {
+        return "bad-op".into();
+    }
+    let vty = |t: Ty| match t {
+        Ty::Int => Some(vp::VTy::Int),
+        Ty::BigInt => Some(vp::VTy::BigInt),
+        Ty::Bool => Some(vp::VTy::Bool),
+        Ty::Text => Some(vp::VTy::Text),
+        _ => None,
+    };
+    let mut vts: Vec<vp::VTable> = Vec::new();
+    for t in &db {
+        let Some(cols) = t.tys.iter().map(|t| vty(*t).map(|v| (v, false))).collect::<Option<Vec<_>>>() else { return "bad-op".into() };
+        vts.push(vp::VTable { cols, indexes: vec![] });
+    }
+    let vlit = |v: &Val| match v {
+        Val::Null | Val::F64(_) => vp::VLit::Null,
+        Val::Int(i) => vp::VLit::Int(*i as i64),
+        Val::Bool(b) => vp::VLit::Bool(*b),
+        Val::Text(t) => vp::VLit::Text(t.clone()),
+    };
+    let rows = |t: &Table| -> Vec<Vec<vp::VLit>> { t.rows.iter().map(|r| r.iter().map(vlit).collect()).collect() };
+    let tables: [vp::VTable; 2] = [vts[0].clone(), vts[1].clone()];
+    let on_v = on.as_ref().map(to_vexpr);
+    let unv = |v: &vp::VLit| match v {
+        vp::VLit::Null => Val::Null,
+        vp::VLit::Int(i) => Val::Int(*i as i128),
+        vp::VLit::Bool(b) => Val::Bool(*b),
+        vp::VLit::Text(t) => Val::Text(t.clone()),
+    };
+    match vp::run_join_operators(&tables, kind, on_v.as_ref(), &rows(&db[0]), &rows(&db[1])) {
+        Err(e) => format!("jop-error ## {}", e),
+        Ok(ops) => ops
+            .iter()
+            .map(|(name, res)| match res {
+                Ok(rs) => {
+                    let rows: Vec<Vec<Val>> = rs.iter().map(|r| r.iter().map(unv).collect()).collect();
+                    format!("{}=Rset:{}", name, show_rows(&rows, true))
+                }
+                Err(e) => format!("{}=E{}", name, err_class(e)),
+            })
+            .collect::<Vec<_>>()
+            .join(" ; "),
+    }
+}
+
+/// two small inputs with NULL keys and duplicates on both sides, every join kind, mostly pure equi conditions
+fn gen_jop_case(rng: &mut Rng) -> Case {
+    let mut tags: Vec<String> = vec!["jop".into(), "nt".into()];
+    let text_keys = rng.chance(1, 6);
+    let mixed = !text_keys && rng.chance(1, 6);
+    let key_ty = |rng: &mut Rng, side: usize| -> Ty {
+        if text_keys {
+            Ty::Text
+        } else if mixed {
+            if side == 0 { Ty::Int } else { Ty::BigInt }
+        } else if rng.chance(1, 8) {
+            Ty::BigInt
+        } else {
+            Ty::Int
+        }
+    };
+    if text_keys {
+        tags.push("jop.text-keys".into());
+    }
+    if mixed {
+        tags.push("jop.int-bigint-keys".into());
+    }
+    let dom = rng.range(2, 4) as u64;
+    let null_rate = *rng.pick(&[0u64, 3, 3, 4, 6]);
+    let mut db: Vec<Table> = Vec::new();
+    for side in 0..2 {
+        let w = rng.range(1, 3) as usize;
+        // column 0 and (if there) column 1 are key columns; a further column is an INT payload
+        let mut tys: Vec<Ty> = Vec::new();
+        for c in 0..w {
+            tys.push(if c < 2 { key_ty(rng, side) } else { Ty::Int });
+        }
+        let n = *rng.pick(&[0usize, 1, 2, 3, 4, 5, 6, 8]);
+        let rows: Vec<Vec<Val>> = (0..n)
+            .map(|_| {
+                tys.iter()
+                    .map(|t| {
+                        if null_rate > 0 && rng.chance(1, null_rate) {
+                            Val::Null
+                        } else if *t == Ty::Text {
+                            Val::Text(TEXTS[rng.below(dom) as usize].as_bytes().to_vec())
+                        } else {
+                            Val::Int(rng.below(dom) as i128)
+                        }
+                    })
+                    .collect()
+            })
+            .collect();
+        db.push(Table { tys, rows });
+    }
+    let (lw, rw) = (db[0].tys.len(), db[1].tys.len());
+    let nulls = |t: &Table| t.rows.iter().any(|r| r[0] == Val::Null);
+    if nulls(&db[0]) && nulls(&db[1]) {
+        tags.push("jop.null-keys-both-sides".into());
+    }
+    if db[0].rows.is_empty() || db[1].rows.is_empty() {
+        tags.push("jop.empty-input".into());
+    }
+    let kind = *rng.pick(&["inner", "left", "right", "full"]);
+    tags.push(format!("jop.{}", kind));
+    let eq = |rng: &mut Rng, l: usize, r: usize| if rng.chance(1, 3) { cmp("eq", E::Col(lw + r), E::Col(l)) } else { cmp("eq", E::Col(l), E::Col(lw + r)) };
+    let mut cs: Vec<E> = Vec::new();
+    let shape = rng.below(10);
+    match shape {
+        0..=6 => {
+            tags.push("jop.equi".into());
+            cs.push(eq(rng, 0, 0));
+            if lw > 1 && rw > 1 && rng.chance(1, 2) {
+                tags.push("jop.equi.2keys".into());
+                cs.push(eq(rng, 1, 1));
+            }
+            if rng.chance(1, 2) {
+                cs.reverse();
+            }
+        }
+        7 => {
+            tags.push("jop.equi-and-more".into());
+            cs.push(eq(rng, 0, 0));
+            let extra = if text_keys {
+                E::IsNull(true, b(E::Col(rng.below((lw + rw) as u64) as usize)))
+            } else {
+                match rng.below(3) {
+                    0 => cmp(*rng.pick(&["lt", "ge", "ne"]), E::Col(rng.below(lw as u64) as usize), lit_i(rng.below(dom) as i128)),
+                    1 => cmp(*rng.pick(&["le", "gt"]), E::Col(lw - 1), E::Col(lw + rw - 1)),
+                    _ => E::IsNull(rng.chance(1, 2), b(E::Col(lw + rng.below(rw as u64) as usize))),
+                }
+            };
+            cs.push(extra);
+        }
+        8 => {
+            tags.push("jop.theta".into());
+            cs.push(cmp(*rng.pick(&["lt", "le", "ne", "ge"]), E::Col(0), E::Col(lw)));
+        }
+        _ => tags.push("jop.no-condition".into()),
+    }
+    let q = Select {
+        distinct: false,
+        from: From::Join(kind, b2(From::Table(0)), b2(From::Table(1)), conj(cs)),
+        where_: None,
+        group_by: vec![],
+        aggs: vec![],
+        items: None,
+        order_by: vec![],
+        limit: None,
+        offset: None,
+        having: None,
+    };
+    Case { line: format!("jop {} | {}", show_db(&db), show_stmt(&Stmt::Select(q))), tags }
+}
+
 // generator of rule-level cases
 
 struct RG<'a> {
@@ -3430,6 +3604,12 @@ fn gen_all(rng: &mut Rng, tier: Tier) -> Vec<Case> {
     };
     let mut orng = rng.fork("orderings");
     all.extend((0..nord).map(|_| gen_ord_case(&mut orng)));
+    let njop = match tier {
+        Tier::Quick => 1200,
+        Tier::Thorough => 12000,
+    };
+    let mut jrng = rng.fork("join-operators");
+    all.extend((0..njop).map(|_| gen_jop_case(&mut jrng)));
     all
 }
 
@@ -3452,6 +3632,9 @@ impl Engine for PlanEngine {
         }
         if line.starts_with("ord ") {
             return run_ord_case(line);
+        }
+        if line.starts_with("jop ") {
+            return run_jop_case(line);
         }
         if let Some(rest) = line.strip_prefix("measure ") {
             let o = run_case(rest, false);
